@@ -30,7 +30,7 @@ sf_count_t psf_fread (void *ptr, sf_count_t bytes, sf_count_t items, SF_PRIVATE 
 __CPROVER_requires (bytes > 0 && bytes <= 8 && items >= 0 && items <= LEN_MAX)
 __CPROVER_requires (items == 0 || __CPROVER_w_ok (ptr, (size_t) (bytes * items)))
 __CPROVER_requires (__CPROVER_r_ok (psf, sizeof (SF_PRIVATE)))
-__CPROVER_assigns (psf->error, psf->pipeoffset, g_io_short; items > 0: __CPROVER_object_from (ptr))
+__CPROVER_assigns (psf->error, psf->pipeoffset, psf->syserr, g_io_short; items > 0: __CPROVER_object_from (ptr))
 __CPROVER_ensures (0 <= __CPROVER_return_value && __CPROVER_return_value <= items)
 __CPROVER_ensures (__CPROVER_return_value == items ? (psf->error == __CPROVER_old (psf->error) && g_io_short == __CPROVER_old (g_io_short)) : g_io_short == 1)
 ;
@@ -38,7 +38,7 @@ sf_count_t psf_fwrite (const void *ptr, sf_count_t bytes, sf_count_t items, SF_P
 __CPROVER_requires (bytes > 0 && bytes <= 8 && items >= 0 && items <= LEN_MAX)
 __CPROVER_requires (items == 0 || __CPROVER_r_ok (ptr, (size_t) (bytes * items)))
 __CPROVER_requires (__CPROVER_r_ok (psf, sizeof (SF_PRIVATE)))
-__CPROVER_assigns (psf->error, psf->pipeoffset, g_io_short)
+__CPROVER_assigns (psf->error, psf->pipeoffset, psf->syserr, g_io_short)
 __CPROVER_ensures (0 <= __CPROVER_return_value && __CPROVER_return_value <= items)
 __CPROVER_ensures (__CPROVER_return_value == items ? (psf->error == __CPROVER_old (psf->error) && g_io_short == __CPROVER_old (g_io_short)) : g_io_short == 1)
 ;
@@ -102,7 +102,7 @@ static sf_count_t %(fn)s (SF_PRIVATE *psf, %(T)s *ptr, sf_count_t len)
 __CPROVER_requires (__CPROVER_is_fresh (psf, sizeof (SF_PRIVATE)))
 __CPROVER_requires (len > 0 && len <= LEN_MAX && len == vin_len)
 __CPROVER_requires (__CPROVER_is_fresh (ptr, (size_t) len * %(SZ)d))
-__CPROVER_assigns (psf->error, psf->pipeoffset, g_io_short, __CPROVER_object_whole (ptr))
+__CPROVER_assigns (psf->error, psf->pipeoffset, psf->syserr, g_io_short, __CPROVER_object_whole (ptr))
 __CPROVER_ensures (0 <= __CPROVER_return_value && __CPROVER_return_value <= len) /*@C05.impl_read_ret_range*/
 __CPROVER_ensures (__CPROVER_return_value < len ==> g_io_short == 1) /*@C05.impl_short_only_when_io_short*/
 __CPROVER_ensures (__CPROVER_return_value == len ==> psf->error == __CPROVER_old (psf->error)) /*@C09.impl_full_read_sets_no_error*/
@@ -122,7 +122,7 @@ static sf_count_t %(fn)s (SF_PRIVATE *psf, const %(T)s *ptr, sf_count_t len)
 __CPROVER_requires (__CPROVER_is_fresh (psf, sizeof (SF_PRIVATE)))
 __CPROVER_requires (len > 0 && len <= LEN_MAX && len == vin_len)
 __CPROVER_requires (__CPROVER_is_fresh (ptr, (size_t) len * %(SZ)d))
-__CPROVER_assigns (psf->error, psf->pipeoffset, g_io_short)
+__CPROVER_assigns (psf->error, psf->pipeoffset, psf->syserr, g_io_short)
 __CPROVER_ensures (0 <= __CPROVER_return_value && __CPROVER_return_value <= len) /*@C05.impl_write_ret_range*/
 __CPROVER_ensures (__CPROVER_return_value < len ==> g_io_short == 1) /*@C05.impl_short_only_when_io_short*/
 __CPROVER_ensures (__CPROVER_return_value == len ==> psf->error == __CPROVER_old (psf->error)) /*@C09.impl_full_write_sets_no_error*/
@@ -201,7 +201,7 @@ def units():
             if has_loop:
                 u["loop_headers"] = []
                 u["loops"] = {fn: [{"loop_id": 0, "assigns_locals": True, "optional": True,
-                                    "assigns": ("psf->error, psf->pipeoffset, g_io_short" + (", __CPROVER_object_whole (ptr)" if kind == "read" else "")),
+                                    "assigns": ("psf->error, psf->pipeoffset, psf->syserr, g_io_short" + (", __CPROVER_object_whole (ptr)" if kind == "read" else "")),
                                     "invariants": (LOOP_INV % ENC_BUFLEN.get(enc, 8192)).replace("LEN_MAX", "(1LL << 28)"),
                                     "decreases": "len"}]}
             U.append(u)
